@@ -6,6 +6,7 @@ EXTENDS HsManager
 MCNodes == {"A", "B", "M", "X"}
 MCAddrs == {"a1", "b1", "b2", "m1"}
 MCCert  == [n \in MCNodes |-> CASE n = "A" -> <<"a1">> [] n = "B" -> <<"b1", "b2">> [] n = "M" -> <<"m1">> [] n = "X" -> <<"b1">>]
+MCOwn == [n \in MCNodes |-> {MCCert[n][k] : k \in 1..Len(MCCert[n])}]
 MCTrusts == [n \in MCNodes |-> IF n = "X" THEN {"X"} ELSE {"A", "B", "M"}]
 MCRoute == [n \in MCNodes |-> [a \in MCAddrs |->
               CASE n = "A" /\ a = "b1" -> <<"M", "B">>
